@@ -59,6 +59,11 @@ impl OperandStack {
     }
 }
 
+#[cfg(kondziu_fml_verif)]
+impl OperandStack {
+    pub fn verif_view(&self) -> &Vec<Pointer> { &self.0 }
+}
+
 impl From<Vec<Pointer>> for OperandStack {
     fn from(vector: Vec<Pointer>) -> Self {
         OperandStack(vector)
@@ -94,6 +99,11 @@ impl Frame {
     }
 }
 
+#[cfg(kondziu_fml_verif)]
+impl Frame {
+    pub fn verif_locals(&self) -> &Vec<Pointer> { &self.locals }
+}
+
 #[derive(Eq, PartialEq, Debug)]
 pub struct FrameStack { pub globals: GlobalFrame, pub functions: GlobalFunctions, frames: Vec<Frame> }
 impl FrameStack {
@@ -117,6 +127,11 @@ impl FrameStack {
         self.frames.last_mut()
             .with_context(|| format!("Attempting to access frame from empty stack."))
     }
+}
+
+#[cfg(kondziu_fml_verif)]
+impl FrameStack {
+    pub fn verif_frames(&self) -> &Vec<Frame> { &self.frames }
 }
 
 impl From<(GlobalFrame, GlobalFunctions)> for FrameStack {
@@ -203,6 +218,11 @@ impl GlobalFrame {
             .collect::<Result<HashMap<String, Pointer>>>()?;
         Ok(GlobalFrame(globals))
     }
+}
+
+#[cfg(kondziu_fml_verif)]
+impl GlobalFrame {
+    pub fn verif_map(&self) -> &HashMap<String, Pointer> { &self.0 }
 }
 
 #[derive(Debug)]
